@@ -156,7 +156,13 @@ func (c *copier) prepareTargetDir(srcFollowed, src, destPath string, copyDirCont
 	}
 
 	if (!copyDirContents && fiSrc.IsDir() && fiDest != nil) || (!fiSrc.IsDir() && fiDest != nil && fiDest.IsDir()) {
-		destPath = filepath.Join(destPath, filepath.Base(src))
+		base := filepath.Base(src)
+		if base == ".." {
+			// "a/.." names a directory, not an entry called ".." below
+			// destPath: joining it would leave the destination
+			base = "."
+		}
+		destPath = filepath.Join(destPath, base)
 	}
 
 	target := filepath.Dir(destPath)
